@@ -46,6 +46,7 @@ func main() {
 	primsTrees(r)
 	primsPerms(r)
 	primsPasswords(r)
+	readerDispatch(r)
 	e2eC22(r)
 	e2ePasswords(r)
 	e2eEmdFalse(r)
@@ -70,7 +71,16 @@ func genDocs(r *vh.Run) []testDoc {
 			var err error
 			b, err = optimizeBytes(g.Bytes, true)
 			if err != nil {
-				r.Count("skip:gen-optimize-failed")
+				// api.Optimize (cmd OPTIMIZE) may refuse what the encrypt pipeline accepts: use that pipeline's reader
+				r.Count("note:api.Optimize-failed:" + name + ":" + err.Error())
+				b, err = plainRewrite(g.Bytes, true)
+			}
+			if err != nil {
+				r.Count("skip:gen-optimize-failed:" + err.Error())
+				return
+			}
+			if !bytes.Contains(b, []byte("/ObjStm")) {
+				r.Count("skip:gen-no-object-streams")
 				return
 			}
 		}
@@ -80,6 +90,9 @@ func genDocs(r *vh.Run) []testDoc {
 	add("gen-classic-private", docOpts{Pages: 1, Private: true, ExtraStrs: extra}, false)
 	add("gen-objstreams", docOpts{Pages: 2, ExtraStrs: extra}, true)
 	add("gen-objstreams-private", docOpts{Pages: 1, Private: true, ExtraStrs: extra}, true)
+	allCrypt := "embedded,xobject,content,metadata"
+	add("gen-cryptfilters", docOpts{Pages: 1, Crypt: allCrypt}, false)
+	add("gen-cryptfilters-objstreams", docOpts{Pages: 2, Crypt: allCrypt}, true)
 	add("gen-sig", docOpts{Pages: 1, Sig: true}, false)
 	add("gen-sig-objstreams", docOpts{Pages: 1, Sig: true}, true)
 	if r.Thorough() {
